@@ -40,13 +40,12 @@ End SetNth.
 (* ---------------------------------------------------------------- static guards, unpacked *)
 Lemma sflags_expr_nil tys hint e :
   sflags_expr tys hint e = [] ->
-  uop_free e = true /\ hint_ok tys hint e = true /\ float_mod_free tys e = true /\ lits_small e = true.
+  uop_free e = true /\ hint_ok tys hint e = true /\ float_mod_free tys e = true.
 Proof.
   unfold sflags_expr. intros H.
   apply app_nil_inv in H. destruct H as [H1 H].
-  apply app_nil_inv in H. destruct H as [H2 H].
-  apply app_nil_inv in H. destruct H as [H3 H4].
-  apply flag_nil in H1, H2, H3, H4. apply negb_false_iff in H1, H2, H3, H4. auto.
+  apply app_nil_inv in H. destruct H as [H2 H3].
+  apply flag_nil in H1, H2, H3. apply negb_false_iff in H1, H2, H3. auto.
 Qed.
 
 Section Stmt.
@@ -94,8 +93,8 @@ Section Stmt.
   Proof.
     intros He Hs. unfold expr_ok in He. apply andb_true_iff in He. destruct He as [_ He].
     destruct (type_of tys sc e) as [t'|] eqn:Te; [|discriminate]. apply ty_eqb_eq in He. subst t'.
-    destruct (sflags_expr_nil _ _ _ Hs) as (U & H & M & L).
-    destruct (cexpr_correct fo tys sc e hint t Te H M L) as (c & Ec & Sc).
+    destruct (sflags_expr_nil _ _ _ Hs) as (U & H & M).
+    destruct (cexpr_correct fo tys sc e hint t Te H M) as (c & Ec & Sc).
     unfold cexpr_to. rewrite (reparse_id e U), Ec, ty_eqb_refl. eauto.
   Qed.
 
@@ -114,18 +113,22 @@ Section Stmt.
   Proof.
     intros He Hs. unfold cond_ok in He. apply andb_true_iff in He. destruct He as [_ He].
     destruct (type_of tys sc c) as [[it|]|] eqn:Te; try discriminate.
-    unfold sflags_cond in Hs. apply app_nil_inv in Hs. destruct Hs as [Hs H64].
-    rewrite (ety_of tys _ _ _ Te) in H64. apply flag_nil in H64.
-    destruct (sflags_expr_nil _ _ _ Hs) as (U & H & M & L).
-    destruct (cexpr_correct fo tys sc c None (TI it) Te H M L) as (cc & Ec & Sc).
+    unfold sflags_cond in Hs.
+    destruct (sflags_expr_nil _ _ _ Hs) as (U & H & M).
+    destruct (cexpr_correct fo tys sc c None (TI it) Te H M) as (cc & Ec & Sc).
     unfold ccond. rewrite (reparse_id c U), Ec. eexists. split; [reflexivity|].
     intros r ls Hsim Hd st. specialize (Sc r ls Hsim Hd st).
     destruct (eval r c) as [[z|x]| |]; try assumption.
-    - destruct Sc as [V X]. simpl in V, X. exists (canon it z).
-      assert (R : regw it = W32) by (destruct it; try reflexivity; discriminate).
-      rewrite R in X. split; [assumption|]. rewrite (canon_zero it z V). unfold truthy.
-      rewrite negb_involutive. reflexivity.
+    - destruct Sc as [V X]. simpl in V, X. unfold truthiness. simpl vt_of.
+      destruct (regw it) eqn:R.
+      + exists (canon it z). rewrite app_nil_r. split; [assumption|].
+        rewrite (canon_zero it z V). unfold truthy. rewrite negb_involutive. reflexivity.
+      + exists (if negb (canon it z =? 0) then 1 else 0). split.
+        * rewrite exec_l_app, X, exec_l_cons, exec_iconst, exec_l_cons, exec_irel, exec_l_nil.
+          change (0 mod wmod W64) with 0. unfold Wasm.irel_sem, b2w. reflexivity.
+        * rewrite (canon_zero it z V). unfold truthy. destruct (z =? 0); reflexivity.
     - destruct Sc as [V _]. exact V.
+    - rewrite exec_l_app, Sc. reflexivity.
   Qed.
 
   Lemma cond_true_eval r c z : eval r c = Ok (VI z) ->
